@@ -45,7 +45,7 @@ var c17Name = &dtpb.HumanName{Family: &dtpb.String{Value: "Env"}}
 var c17Coll = system.Collection{system.Integer(1), system.String("x"), c17Name}
 
 // evaluate-option kinds
-var c17EvalKinds = []string{"sys", "elem", "coll", "dup", "predef-context", "predef-ucum", "unsupported", "nested-unsupported", "nested-collection", "unsupported-first", "nil", "time", "empty-collection", "nil-collection"}
+var c17EvalKinds = []string{"sys", "elem", "coll", "dup", "predef-context", "predef-ucum", "unsupported", "nested-unsupported", "nested-collection", "unsupported-first", "nil", "time", "empty-collection", "nil-collection", "percent-context", "percent-a"}
 
 func c17EvalOpt(kind string) fhirpath.EvaluateOption {
 	switch kind {
@@ -73,6 +73,11 @@ func c17EvalOpt(kind string) fhirpath.EvaluateOption {
 		return evalopts.EnvVariable("nc", system.Collection{system.Integer(1), system.Collection{system.String("ok")}})
 	case "nil":
 		return evalopts.EnvVariable("z", nil)
+	case "percent-context":
+		// a name is a name: "%context" (with the sign) is not the predefined variable, and does not replace it
+		return evalopts.EnvVariable("%context", system.Integer(99))
+	case "percent-a":
+		return evalopts.EnvVariable("%a", system.Integer(77))
 	case "empty-collection":
 		return evalopts.EnvVariable("ec", system.Collection{})
 	case "nil-collection":
@@ -142,7 +147,7 @@ func c17EvalList(env *core.Env, kinds []string) {
 	for _, k := range kinds {
 		count[k]++
 	}
-	for _, k := range []string{"elem", "coll", "empty-collection", "nil-collection"} {
+	for _, k := range []string{"elem", "coll", "empty-collection", "nil-collection", "percent-context", "percent-a"} {
 		if count[k] > 1 {
 			expExisting = true
 		}
@@ -209,6 +214,21 @@ func c17EvalList(env *core.Env, kinds []string) {
 		if ok, why := sameItems(rr.Raw, want); !ok {
 			env.Violatef("C17/variable/"+what+"/wrong-value", "`%s` with options [%s]: %s (observed %s)", src, list, why, trunc(rr.Short(), 120))
 		}
+	}
+	if has["percent-context"] || has["percent-a"] {
+		env.Cover("percent-prefixed-name")
+		check("%context.count()", system.Collection{system.Integer(int32(len(in)))}, "context-after-percent-name")
+		if rr := fx.Eval(env, "%context", in, nil, eo); rr.IsValue() && len(rr.Raw) == len(in) {
+			for i := range in {
+				if rr.Raw[i] != any(in[i]) {
+					env.Violatef("C17/context/not-the-input-collection", "with a variable named \"%%context\" supplied, `%%context` is no longer the input collection: %s", trunc(rr.Short(), 100))
+					break
+				}
+			}
+		}
+	}
+	if has["percent-a"] && has["sys"] && !has["dup"] {
+		check("%a", system.Collection{system.Integer(5)}, "percent-name-does-not-replace")
 	}
 	if has["sys"] && !has["dup"] {
 		check("%a", system.Collection{system.Integer(5)}, "root")
@@ -698,7 +718,7 @@ func c17Contract(env *core.Env) {
 	}
 	// ... wherever the call stands: as the operand that does not decide a Boolean operator, in criteria, as an argument
 	for _, src := range []string{"false and Patient.boom().exists()", "Patient.boom().exists() and false", "true or Patient.boom().exists()", "false implies Patient.boom().exists()", "Patient.name.where(family = 'Nobody' and boom().exists())",
-		"Patient.name.exists(family.exists() or boom().exists())", "iif(true, Patient.boom())", "Patient.name.select(boom())", "{} and Patient.boom().exists()", "Patient.boom().count() + 1", "Patient.name.all(boom().empty())"} {
+		"Patient.name.exists(family.exists() or boom().exists())", "iif(true, Patient.boom())", "Patient.name.select(boom())", "Patient.name.select(iif(use = 'official', boom(), family))", "Patient.name.select(iif(use.exists(), family, boom()))", "{} and Patient.boom().exists()", "Patient.boom().count() + 1", "Patient.name.all(boom().empty())"} {
 		before := p.calls
 		rb := fx.Eval(env, src, one, co, nil)
 		env.Cover("custom-error-in-position")
@@ -707,6 +727,24 @@ func c17Contract(env *core.Env) {
 			env.Violatef(fx.PanicSig("C17", rb), "`%s` => %s", src, rb.Short())
 		case !rb.IsError() || !errors.Is(rb.Err, errProbe):
 			env.Violatef("C17/custom/error-not-passed-through/in-position", "`%s`: expected the function's own error, observed %s (the function was called %d time(s))", src, trunc(rb.Short(), 100), p.calls-before)
+		}
+	}
+	// every name of the function table is an existing name: registering a custom function under it fails at Compile
+	for _, t := range readTable() {
+		f := func(in system.Collection) (system.Collection, error) { return in, nil }
+		opts := [][]fhirpath.CompileOption{{compopts.WithExperimentalFuncs(), compopts.AddFunction(t.Name, f)}}
+		if !t.Experimental {
+			opts = append(opts, []fhirpath.CompileOption{compopts.AddFunction(t.Name, f)}, []fhirpath.CompileOption{compopts.AddFunction(t.Name, f), compopts.WithExperimentalFuncs()})
+		}
+		for _, co2 := range opts {
+			ex, crr := fx.Compile(env, "Patient.id", co2...)
+			env.Cover("existing-name-every-table-entry")
+			if crr.IsPanic() {
+				env.Violatef(fx.PanicSig("C17", crr), "AddFunction(%q) => %s", t.Name, crr.Short())
+			} else if ex != nil {
+				env.Violatef("C17/custom/existing-name-accepted/"+t.Name, "AddFunction(%q, f): the name is in the function table (experimental: %v), but Compile accepts the registration", t.Name, t.Experimental)
+				break
+			}
 		}
 	}
 	// a function registered for one Compile is not visible in another
